@@ -691,7 +691,7 @@ def _run_case_here(item):
                             continue
                         for nm in ("_stdin", "_stdout", "_stderr", "captured_stdout", "captured_stderr"):
                             v = getattr(s, nm, None)
-                            if hasattr(v, "closed") and not isinstance(v, int) and not v.closed and v not in (sys.stdin, sys.stdout, sys.stderr):
+                            if hasattr(v, "closed") and not isinstance(v, int) and not v.closed and not any(v is o_ or v is getattr(o_, "default", None) for o_ in (*real, sys.stdin, sys.stdout, sys.stderr, sys.__stdout__, sys.__stderr__)):
                                 audit.append([s.pipeline_index, nm])
                         for ch in list(getattr(s, "pipe_channels", [])):
                             if ch._read_fd is not None or ch._write_fd is not None:
@@ -1498,6 +1498,16 @@ def replay_known(ctx):
     for f in ctx.known:
         w = f["witness"]
         if w.get("intermittent"):
+            if str(f.get("status", "")).startswith("fixed"):
+                # a FIXED timing-dependent finding: its witness is run a number of times; one wedge is a recurrence
+                case = w["case"]
+                case["src"] = render(case)
+                res = run_batch([to_item(case) for _ in range(ctx.n(16, 80))])
+                wedged = [o for o in res if is_hang(o)]
+                ctx.replayed(f["key"], bool(wedged), {"runs": len(res), "wedged": len(wedged), "dump_tail": (wedged[0].get("stacks", "")[-800:] if wedged else None)})
+                if wedged:
+                    ctx.spec_failure({"stream": "known-witness", "source": case["src"], "case": case, "status": f.get("status")},
+                                     {"runs": len(res), "wedged": len(wedged), "stacks": wedged[0].get("stacks", "")[-2500:]}, f["what"], f["key"])
             continue
         fails, details, src = False, [], []
         for case in w.get("cases") or [w["case"]]:
